@@ -77,6 +77,8 @@ func StartMemoryMonitor(limitBytes uint64) {
 				// a single native instruction is blowing the heap up between polls: nothing cooperative
 				// can stop it, and the sandbox has no memory limit of its own
 				println("verifsim: heap", heap>>20, "MB, far beyond the memory-pressure limit; exiting (infrastructure, exit 3)")
+				buf := make([]byte, 1<<16)
+				os.Stderr.Write(buf[:runtime.Stack(buf, true)]) // who is allocating
 				os.Exit(3)
 			}
 			switch {
